@@ -2,6 +2,8 @@ package rules
 
 import (
 	"go/token"
+	"regexp"
+	"strconv"
 	"strings"
 
 	"golang.org/x/tools/go/ssa"
@@ -418,36 +420,12 @@ func (c *Ctx) checkQuorumGuard(rule string, reach map[*ssa.Function]bool, isProc
 			if gte == nil {
 				return
 			}
-			// threshold constants
-			lr := p.Leaves(gte.Call.Args[1], ana.PVOpt{})
-			var consts []string
-			for _, l := range lr.List() {
-				if strings.HasPrefix(l, "const:") {
-					consts = append(consts, strings.TrimPrefix(l, "const:"))
-				}
-			}
-			okT := lr.HasOp("Int.Mul") && lr.HasOp("Int.Quo") && len(consts) == 2 && !lr.Ops["binop:-"] && !lr.HasOp("Int.Sub")
-			if okT {
-				var a, b int64
-				for _, s := range consts {
-					var v int64
-					for _, ch := range s {
-						if ch < '0' || ch > '9' {
-							v = -1
-							break
-						}
-						v = v*10 + int64(ch-'0')
-					}
-					if v > b {
-						a, b = b, v
-					} else {
-						a = v
-					}
-				}
-				okT = b > 0 && a*wantB >= wantA*b && a <= b
-			}
-			r.Check(okT, rule, "threshold:"+fname(f), c.pos(gte), sprintf("required = A*total/B with constants %v, A/B >= %d/%d", consts, wantA, wantB),
-				sprintf("the required power is not A*GetLastTotalPower/B with A/B >= %d/%d (constants found: %v, ops %v)", wantA, wantB, consts, lr.OpList()))
+			// threshold: the normal form Int.Quo(Int.Mul(NewInt(A),total),NewInt(B)) – multiply first, then divide
+			ex := p.Expr(gte.Call.Args[1], 3)
+			a, b, okT := parseThreshold(ex)
+			okT = okT && b > 0 && a*wantB >= wantA*b && a <= b
+			r.Check(okT, rule, "threshold:"+fname(f), c.pos(gte), sprintf("required = %s with A/B = %d/%d >= %d/%d", ex, a, b, wantA, wantB),
+				sprintf("the required power is not (A*GetLastTotalPower)/B with A/B >= %d/%d, multiplied before dividing: %s", wantA, wantB, ex))
 			// accumulation: phi(0, phi.Add(NewInt(GetLastValidatorPower(vote)))) over the record's votes
 			okAcc, why := c.votePowerAccumulates(gte.Call.Args[0], votesField)
 			r.Check(okAcc, rule, "accumulate:"+fname(f), c.pos(gte), "votePower starts at 0 and adds exactly one GetLastValidatorPower(vote) per iteration over the record's votes", why)
@@ -513,4 +491,21 @@ func (c *Ctx) votePowerAccumulates(v ssa.Value, votesField string) (bool, string
 		return false, "the validator whose power is added does not come from the record's votes: " + strings.Join(lv.List(), ",")
 	}
 	return true, ""
+}
+
+var thresholdRe = regexp.MustCompile(`^Int\.Quo\(Int\.Mul\((?:NewInt\((\d+)\),(StakingKeeper\.GetLastTotalPower\(\))|(StakingKeeper\.GetLastTotalPower\(\)),NewInt\((\d+)\))\),NewInt\((\d+)\)\)$`)
+
+// parseThreshold recognises (A*total)/B in the rendered expression.
+func parseThreshold(ex string) (a, b int64, ok bool) {
+	m := thresholdRe.FindStringSubmatch(ex)
+	if m == nil {
+		return 0, 0, false
+	}
+	as := m[1]
+	if as == "" {
+		as = m[4]
+	}
+	a, _ = strconv.ParseInt(as, 10, 64)
+	b, _ = strconv.ParseInt(m[5], 10, 64)
+	return a, b, true
 }
